@@ -305,7 +305,8 @@ func (in *Interp) intrinsic(fn *ssa.Function, args []Value, site *ssa.Call) (Val
 		in.stub("errors.Is (identity/unwrap walk)")
 		return in.errorsIs(args[0].(IfaceV), args[1].(IfaceV)), true
 	case "errors.As":
-		in.unsupported("errors.As")
+		in.stub("errors.As (dynamic-type match along the unwrap chain; concrete target types only)")
+		return in.errorsAs(args[0].(IfaceV), args[1].(IfaceV)), true
 
 	// ----- sync -----
 	case "(*sync.Mutex).Lock", "(*sync.RWMutex).Lock", "(*sync.RWMutex).RLock":
@@ -851,6 +852,46 @@ func (in *Interp) errorsIs(err, target IfaceV) *Term {
 			}
 		}
 		return eq
+	}
+	return ts.Bool(false)
+}
+
+// errors.As for a target of type *T with T a concrete (non-interface) type:
+// walks the unwrap chain and stores the first error whose dynamic type is T.
+func (in *Interp) errorsAs(err, target IfaceV) *Term {
+	ts := in.ts
+	pt, ok := target.T.(*types.Pointer)
+	if !ok {
+		in.unsupported("errors.As with a non-pointer target")
+	}
+	if _, isIface := under(pt.Elem()).(*types.Interface); isIface {
+		in.unsupported("errors.As with an interface target")
+	}
+	tp, _ := target.V.(Pointer)
+	for depth := 0; depth < 8; depth++ {
+		if err.T == nil {
+			return ts.Bool(false)
+		}
+		if types.Identical(err.T, pt.Elem()) {
+			in.store(tp, in.copyVal(err.V))
+			return ts.Bool(true)
+		}
+		if p, ok := err.V.(Pointer); ok && p.P != nil && in.wraps != nil {
+			if w, ok := in.wraps[p.P]; ok {
+				err = w
+				continue
+			}
+		}
+		if types.NewMethodSet(err.T).Lookup(nil, "Unwrap") != nil {
+			if m := in.eng.prog.LookupMethod(err.T, nil, "Unwrap"); m != nil && len(m.Blocks) > 0 {
+				r := in.call(m, []Value{err.V}, nil)
+				if iv, ok := r.(IfaceV); ok {
+					err = iv
+					continue
+				}
+			}
+		}
+		return ts.Bool(false)
 	}
 	return ts.Bool(false)
 }
